@@ -27,6 +27,10 @@ type Task struct {
 	callYields int32
 	callSteps  int64
 	budget     int64
+	nextHang   int64 // step count at which an over-budget call is unwound again
+	exitable   bool  // the call runs on its own goroutine and may be ended with Goexit
+	hung       bool  // ... and has been
+	hangSteps  int64
 	held       int
 
 	blockedOn unsafe.Pointer
@@ -267,8 +271,8 @@ func Yield(site uint32, class int) {
 	}
 	t := w.cur
 	src := t.src
-	if src == nil {
-		return // only pre-empt inside API calls
+	if src == nil || t.hung {
+		return // only pre-empt inside API calls (and not while a hung call is being unwound)
 	}
 	w.Stats.Yields++
 	cy := t.callYields
